@@ -8,6 +8,11 @@ tolerance 1e-9·max|P| (all pivots of `tol·1 − P` positive, elimination over 
 eigenvalue real parts (numpy); stored energy ½ΣC v² + ½ΣL i² of the simulated response after a
 finite pulse is non-increasing and bounded (`scipy.signal.lsim` trusted).
 
+Also decided exactly: the state matrix is non-singular (a circuit of the domain has no natural
+frequency at s = 0).  Unit-scale stream: SI values (R mΩ…GΩ, C pF…F, L nH…H); there the Lyapunov test
+runs in energy-normalised states (D = W^-½, every entry of D·P·D is a rate) with a tolerance relative
+to the rates that enter P.  Revisit stream: same ids, only L / C values changed, same process.
+
 The model is the one of C10 (CC/Model/StateSpace.lean); its correspondence runs under C10 and
 is repeated here on every case for `A` only.
 """
@@ -41,7 +46,7 @@ ASSUMPTIONS = [
 EXTRA_CANON = {}      # set by the value-variation stream: same ids, different values, same process
 
 def canon(desc, symptom, **kw):
-    return dict(op='passivity', symptom=symptom, **gs.facts(desc), **EXTRA_CANON, **kw)
+    return dict(op='passivity', symptom=symptom, **gs.facts(desc), **({'si_units': True} if 'si' in desc else {}), **EXTRA_CANON, **kw)
 
 def pulse_inputs(desc, sources, tin, k_on, k_off):
     """piecewise-linear pulses with breakpoints on the grid: 0, one-sample ramp up, hold,
@@ -81,8 +86,22 @@ def check_case(ctx, out, desc, origin='random'):
     W = np.array(list(im.cvals.values()) + list(im.lvals.values()))
     if not np.all(np.isfinite(A)) or A.shape != (len(W), len(W)):
         out.spec_fail(canon(desc, 'non_finite'), f'state matrix not finite / of shape {A.shape}', inp, desc=desc); return
-    if max([c10.cond_of(p) for p in im.inverses] + [1.0]) > 1e6:
-        out.skip('ill_conditioned'); return
+    si_mode = 'si' in desc
+    if not max([c10.cond_of(p) for p in im.inverses] + [1.0]) <= (c10.SI_COND_GUARD if si_mode else 1e6):
+        out.skip('si_ill_conditioned' if si_mode else 'ill_conditioned'); return
+    if si_mode: out.count('si_cases')
+    # a circuit of the domain has no natural frequency at s = 0 (its DC network is well-posed, decided exactly
+    # above): the state matrix must be non-singular — decided exactly on the implementation's A
+    if A.size:
+        if drv is not None:
+            r0 = drv.call('ss_transfer', A=gs.qmat(A), B=[[] for _ in range(A.shape[0])], s=[core.q(0), core.q(0)], nu=0, rows=[])
+            singular = 'singular' in r0
+        else:
+            singular = bool(np.any(np.all(A == 0, axis=1))) or np.linalg.matrix_rank(A) < A.shape[0]
+        if singular:
+            out.spec_fail(canon(desc, 'natural_frequency_at_zero'), 'the state matrix is singular: a natural frequency at s = 0 '
+                          '(a state that never decays) although the DC network of the circuit is well-posed', inp,
+                          impl=dict(A=A.tolist()), desc=desc); return
     # correspondence on A (the full correspondence runs under C10)
     if drv is not None:
         m = drv.call('ss_model', net=gen_net.impl_to_json(im.network), cvals=gs.dict_items(im.cvals),
@@ -93,9 +112,21 @@ def check_case(ctx, out, desc, origin='random'):
                 out.disagree('ss_model.A', inp, A.tolist(), gs.model_mat(m['A']))
     # exact Lyapunov inequality
     P = np.diag(W) @ A + A.T @ np.diag(W)
+    As, Ws = A, W
+    if si_mode and P.size:
+        # SI units: P mixes conductance-like (capacitor states) and resistance-like (inductor states) entries;
+        # in energy-normalised states x' = W^½ x every entry of P' = D·P·D, D = W^-½, is a rate (1/s) and the
+        # definiteness is unchanged: D P D = W'A' + A'ᵀW' with A' = D⁻¹ A D, W' = D² W = 1
+        dd = 1.0 / np.sqrt(W)
+        As = (A * dd.reshape(1, -1)) / dd.reshape(-1, 1)
+        Ws = W * dd * dd
+        P = np.diag(Ws) @ As + As.T @ np.diag(Ws)
     tol = 1e-9 * max(1.0, float(np.max(np.abs(P))) if P.size else 1.0)
+    if si_mode and P.size:
+        # relative to the rates that enter P before they cancel (a lossless LC pair gives P = 0 exactly)
+        tol = 1e-9 * float(np.max(np.abs(Ws.reshape(-1, 1) * As)))
     if drv is not None:
-        r = drv.call('ss_lyap', A=gs.qmat(A) if A.size else [], W=gs.qvec(W), tol=core.q(tol))
+        r = drv.call('ss_lyap', A=gs.qmat(As) if As.size else [], W=gs.qvec(Ws), tol=core.q(tol))
         nsd, sym = r['nsd'], r['sym']
     else:
         nsd = bool(np.all(np.linalg.eigvalsh((P + P.T) / 2) <= tol)); sym = True
@@ -135,6 +166,8 @@ def run(ctx, out):
     for desc in c10.CORPUS:
         if not gs.facts(desc)['zero_valued_current_source']:
             check_case(ctx, out, desc, 'corpus')
+    for desc in c10.SI_CORPUS:
+        check_case(ctx, out, desc, 'si_corpus')
     rng = ctx.rng('random')
     n_random = 150 if ctx.quick else 2500
     reserve = 8 if ctx.quick else 60
@@ -147,6 +180,16 @@ def run(ctx, out):
             if ok: break
             out.count('rejected_degenerate:' + why)
         check_case(ctx, out, desc)
+        # unit-scale stream: the same circuit in realistic SI units
+        if rng.random() < (0.3 if ctx.quick else 1.0):
+            gs.run_sequence(out, EXTRA_CANON, [desc, gs.si_desc(rng, desc, exact=True), gs.si_desc(rng, desc, exact=False)],
+                            lambda d: check_case(ctx, out, d, 'si'))
+        # revisit stream: same circuit and ids, ONLY the L / C values differ, same process, both orders
+        if rng.random() < (0.3 if ctx.quick else 1.0):
+            d2 = gs.vary_values(rng, desc, kinds=('C', 'L'))
+            first, second = (desc, d2) if rng.random() < 0.5 else (d2, desc)
+            gs.run_sequence(out, EXTRA_CANON, [first, second, first], lambda d: check_case(ctx, out, d, 'revisit'))
+            out.count('revisit_sequences')
         # value-variation stream: the same description (ids, nodes, order) with other R, L, C values in
         # the same process, then the first one again — state leaking between analyses would show here
         if rng.random() < (0.3 if ctx.quick else 1.0):
